@@ -141,6 +141,16 @@ func (k *Kaudit) Login(ses string, pid, uid int) *KEvent {
 	return &KEvent{Seq: seq, TS: ts, TSStr: tss, Type: "LOGIN", Ses: ses, PID: pid, Success: true, Lines: []string{l}, NRec: 1}
 }
 
+// LoginNested prints the LOGIN record of a process inside session oldSes that gets an audit
+// session of its own (su, sudo -i or login with pam_loginuid): old-ses names the session it
+// came from.
+func (k *Kaudit) LoginNested(ses, oldSes string, pid, uid, oldUID int) *KEvent {
+	seq, ts, tss := k.next()
+	l := fmt.Sprintf("type=LOGIN msg=audit(%s:%d): pid=%d uid=0 old-auid=%d auid=%d tty=pts0 old-ses=%s ses=%s res=1",
+		tss, seq, pid, oldUID, uid, oldSes, ses)
+	return &KEvent{Seq: seq, TS: ts, TSStr: tss, Type: "LOGIN", Ses: ses, PID: pid, Success: true, Lines: []string{l}, NRec: 1}
+}
+
 var userMsgOps = map[string]string{
 	"USER_START": "PAM:session_open", "USER_END": "PAM:session_close", "CRED_DISP": "PAM:setcred",
 	"CRED_ACQ": "PAM:setcred", "USER_ACCT": "PAM:accounting", "CRED_REFR": "PAM:setcred", "USER_LOGIN": "login",
@@ -229,6 +239,16 @@ func (k *Kaudit) AVC(ses string, pid, uid int) *KEvent {
 	return &KEvent{Seq: seq, TS: ts, TSStr: tss, Type: "AVC", Ses: ses, PID: pid, Success: false, Lines: ls, NRec: len(ls)}
 }
 
+// Unterminated drops the record that ends the group (EOE or PROCTITLE): what a kernel without
+// PROCTITLE support, or an exclude rule for that record type, leaves of a compound event.
+func (e *KEvent) Unterminated() *KEvent {
+	if n := len(e.Lines); n > 1 && (strings.HasPrefix(e.Lines[n-1], "type=EOE ") || strings.HasPrefix(e.Lines[n-1], "type=PROCTITLE ")) {
+		e.Lines = e.Lines[:n-1]
+		e.NRec = len(e.Lines)
+	}
+	return e
+}
+
 // Coalesce builds the *aucoalesce.Event the reassembler callback would hand to the
 // correlator for this kernel event (real auparse + aucoalesce code).
 func (e *KEvent) Coalesce() (*aucoalesce.Event, error) {
@@ -285,6 +305,10 @@ func GenLogin(t *simrt.Tape, pid, uniq int) *LoginSpec {
 		}
 		l.Serial = uint64(t.Choose(1000, "serial"))
 		l.CAFP = b64ish(t, 43)
+		if t.Choose(8, "ca-self") == 7 {
+			// a self-signed certificate: the signing key is the certified key
+			l.CAFP = l.FP
+		}
 	case 1:
 		l.Form = "key"
 	case 2:
@@ -325,6 +349,9 @@ func GenAction(t *simrt.Tape, k *Kaudit, ses string, pid, uid int) *KEvent {
 		return k.UserMsg("USER_LOGIN", ses, pid, uid, t.Choose(4, "ok") != 0, t.Choose(2, "resform"))
 	case 2:
 		return k.UserMsg("CRED_ACQ", ses, pid+100+t.Choose(50, "cpid"), uid, true, 0)
+	case 5:
+		// a compound event that the kernel leads with a record other than SYSCALL
+		return k.AVC(ses, pid+200+t.Choose(50, "cpid"), uid)
 	default:
 		argv := cmds[t.Choose(len(cmds), "cmd")]
 		return k.Exec(ses, pid+200+t.Choose(50, "cpid"), uid, argv, t.Choose(4, "ok") != 0, t.Choose(4, "execve") != 0, t.Choose(4, "eoe") == 0)
